@@ -20,7 +20,8 @@ enum Re {
     Group(Box<Re>),
 }
 
-const ALPHA: [char; 8] = ['a', 'b', 'c', 'd', '/', '.', '0', 'B'];
+// multi-byte characters included: lengths are compared in bytes by the engine, in characters by a careless rewrite
+const ALPHA: [char; 10] = ['a', 'b', 'c', 'd', '/', '.', '0', 'B', 'é', '日'];
 
 fn gen(rng: &mut Rng, depth: usize, syntax: char) -> Re {
     let leaf = depth == 0 || rng.chance(2, 5);
@@ -53,12 +54,12 @@ fn gen(rng: &mut Rng, depth: usize, syntax: char) -> Re {
 
 fn wire(r: &Re) -> String {
     match r {
-        Re::Chr(c) => format!("c{:02x}", *c as u32),
+        Re::Chr(c) => format!("c{:06x}", *c as u32),
         Re::Any => "d".into(),
         Re::Set(neg, ms) => {
             let mut s = format!("k{}{}", *neg as u8, ms.len());
             for (a, b) in ms {
-                match b { Some(b) => s.push_str(&format!("r{:02x}{:02x}", *a as u32, *b as u32)), None => s.push_str(&format!("m{:02x}", *a as u32)) }
+                match b { Some(b) => s.push_str(&format!("r{:06x}{:06x}", *a as u32, *b as u32)), None => s.push_str(&format!("m{:06x}", *a as u32)) }
             }
             s
         }
